@@ -86,6 +86,7 @@ type env struct {
 	nextID  int
 	chain   []*chainEnt // index = height
 	peers   mPeers      // vbftPeerInfoMap as last observed
+	writer  map[uint32]string // per height: was the current entry written by an "accepted" or a "rejected" verifyHeader call ("init": at load)
 	history []step      // state-changing operations so far (replayable)
 	vcache  map[string]bool
 }
@@ -193,6 +194,10 @@ func newEnv(dir string) (*env, error) {
 	m := &mHeader{Height: 0, Prev: 0, Time: gh.Timestamp, InfoOK: true, Last: info.LastConfigBlockNum, Cfg: cfg, Hash: e.hid(gh.Hash())}
 	e.chain = []*chainEnt{{real: gh, m: m}}
 	e.peers = e.observePeers()
+	e.writer = map[uint32]string{}
+	for h := range e.peers {
+		e.writer[h] = "init"
+	}
 	return e, nil
 }
 
